@@ -396,9 +396,10 @@ func (p *fprinter) ws(min bool) {
 		case x < 17:
 			p.w("\r\n")
 		case x < 18:
-			p.w("/* c { */")
+			// runs of stars before the closing slash, an empty comment, a brace inside
+			p.w([]string{"/* c { */", "/** doc **/", "/***/", "/**/", "/* x ***/", "/****** t ******/", "/* a * b / c */"}[p.r.Intn(7)])
 		case x < 19:
-			p.w("/* two\nlines */")
+			p.w([]string{"/* two\nlines */", "/**\n * doc\n **/"}[p.r.Intn(2)])
 		default:
 			p.w("// line comment }\n")
 		}
